@@ -166,6 +166,6 @@ pub static DEF: CheckDef = CheckDef {
     id: "C02", level: "exploration", gen, exec,
     nontrivial: |o| o.counters.get("cmds").copied().unwrap_or(0) >= 20 && o.sim_ns > 0,
     rule: "one run = one seeded history over 5 keys of all value types mixing TTL setters (SET EX/PX, SETEX, PSETEX, EXPIRE, PEXPIRE incl. zero/negative), TTL clearers (PERSIST, SET, GETSET, MSET), RENAME/RENAMENX, in-place modifiers, emptying+re-creating, conditional writers and readers of every family, with the virtual clock moved to deadline-d, deadline, deadline+d (d = 1ns..1s) and the sweeper thread scheduled by the simulator under one of three policies (runs whenever due / starved: lazy path only / parked between its collect and delete phases while client commands run); every reply is compared with the model at the exact virtual execution time, and the stored dataset incl. stored deadlines is compared after every command, clock move and sweeper release; non-trivial = at least 20 commands and the clock moved; distinct = distinct event-log hash",
-    quick_budget_s: 45.0, thorough_budget_s: 900.0, quick_max_runs: 1_000_000, thorough_max_runs: 100_000_000, exhaustive: false,
+    quick_budget_s: 45.0, thorough_budget_s: 900.0, quick_max_runs: 1_000_000, thorough_max_runs: 100_000_000, exhaustive: false, exhaustive_after: |_| 0,
     real: REAL_WHOLE_SERVER, stub: STUB_WHOLE_SERVER, assumptions: ASSUME_COMMON,
 };
